@@ -1,0 +1,28 @@
+//go:build verif
+
+package verifapi
+
+import "github.com/deepteams/webp/internal/lossy"
+
+// Loop-filter parameters of the VP8 decoder (suite vp8dec, property C04).
+
+// VP8FInfo is lossy.FInfo with plain ints.
+type VP8FInfo struct {
+	Limit, ILevel, Hev int
+	Inner              bool
+}
+
+// VP8FilterStrengths is lossy.VerifFilterStrengths: dec.fstrengths after
+// precomputeFilterStrengths on a fresh decoder with these header values.
+func VP8FilterStrengths(level, sharpness int, useLFDelta bool, ref0, mode0 int,
+	useSegment, absoluteDelta bool, filterStrength [4]int8, simple bool) [4][2]VP8FInfo {
+	t := lossy.VerifFilterStrengths(level, sharpness, useLFDelta, ref0, mode0, useSegment, absoluteDelta, filterStrength, simple)
+	var out [4][2]VP8FInfo
+	for s := 0; s < 4; s++ {
+		for i := 0; i < 2; i++ {
+			f := t[s][i]
+			out[s][i] = VP8FInfo{Limit: int(f.FLimit), ILevel: int(f.FILevel), Hev: int(f.HevThresh), Inner: f.FInner}
+		}
+	}
+	return out
+}
